@@ -141,6 +141,74 @@ fn replay_tier(id: &str, ctx: &RunCtx) {
     }
 }
 
+/// Run one noted text in a child process; Some(signal) if the child was killed by a signal.
+fn probe_in_child(stage: u8, text: &str) -> Option<i32> {
+    use std::os::unix::process::ExitStatusExt;
+    let dir = verif_root().join("harness").join("target").join("work");
+    let _ = std::fs::create_dir_all(&dir);
+    let file = dir.join(format!("probe-{}-{}.txt", std::process::id(), fnv64(text.as_bytes())));
+    std::fs::write(&file, text).ok()?;
+    let exe = std::env::current_exe().ok()?;
+    let child = std::process::Command::new(exe).arg("probe").arg(format!("{stage}")).arg(&file).env("VERIF_ROOT", verif_root()).stdout(std::process::Stdio::null()).stderr(std::process::Stdio::null()).spawn();
+    let mut sig = None;
+    if let Ok(mut c) = child {
+        // a child that neither returns nor dies within a minute is a hang, which is reported as
+        // inconclusive by the caller (never as a violation)
+        let t0 = std::time::Instant::now();
+        loop {
+            match c.try_wait() {
+                Ok(Some(s)) => {
+                    sig = s.signal();
+                    break;
+                }
+                Ok(None) if t0.elapsed().as_secs() > 60 => {
+                    let _ = c.kill();
+                    let _ = c.wait();
+                    println!("INCONCLUSIVE: a fresh process does not return within 60 s on the input {:?}", text.chars().take(200).collect::<String>());
+                    break;
+                }
+                Ok(None) => std::thread::sleep(std::time::Duration::from_millis(50)),
+                Err(_) => break,
+            }
+        }
+    }
+    let _ = std::fs::remove_file(&file);
+    sig
+}
+
+/// After an abnormal death of the harness: attribute it to a noted text if one of them kills a
+/// fresh process again. Returns the exit code for `./check`.
+fn aftermath(id: &str, pid: u32) -> i32 {
+    let slots = read_slots(pid);
+    let _ = std::fs::remove_dir_all(slots_dir(pid));
+    let mut code = 2;
+    for (stage, text) in slots {
+        if let Some(sig) = probe_in_child(stage, &text) {
+            // a death inside lexing/parsing is C01's subject, inside the analysis C03's
+            let owner = if stage == 1 { "C01" } else { "C03" };
+            let key = format!("{owner}:abort:signal-{sig}:{}", if stage == 1 { "parse" } else { "analysis" });
+            if owner == id {
+                let ctx = RunCtx::new(id, Tier::Quick, 0);
+                if ctx.is_known(&key) {
+                    println!("KNOWN-FINDING: property={id} key={key}");
+                    continue;
+                }
+                let f = Failure::new(key.clone(), serde_json::json!({"input": {"source": text}, "actual": format!("the process was killed by signal {sig} (stack overflow or abort) while handling this input")}));
+                let path = write_replay(id, &f, Tier::Quick, 0);
+                println!("VIOLATION property={id} replay={}", path.display());
+                println!("  key: {key}");
+                code = 1;
+            } else {
+                println!("INCONCLUSIVE: the process was killed by signal {sig} while handling an input; this is {owner}'s subject (run ./check {owner}); input: {:?}", text.chars().take(200).collect::<String>());
+            }
+        }
+    }
+    if code == 2 {
+        println!("INCONCLUSIVE: the harness process died and no noted input reproduces the death in isolation");
+    }
+    code
+}
+
 fn main() {
     for (k, _) in std::env::vars() {
         if k.starts_with("PROPTEST_") {
@@ -161,6 +229,29 @@ fn main() {
             println!("accessor disagreement {which}: {what}");
         }
         return;
+    }
+    if args.len() >= 4 && args[1] == "probe" {
+        // child of `aftermath` / of an abort replay: hand one text to the stage that was running
+        // when a process died; exits 0 when the code under test returns (or merely panics)
+        let text = std::fs::read_to_string(&args[3]).unwrap_or_default();
+        let stage = args[2].clone();
+        install_panic_hook();
+        let child = std::thread::Builder::new().stack_size(512 << 20).spawn(move || {
+            if stage == "2" {
+                let _ = pipeline::analyze(&text);
+            } else {
+                let mut out = vec![];
+                let _ = textprops::oracle_text(&text, &mut out);
+            }
+        });
+        let _ = child.unwrap().join();
+        return;
+    }
+    if args.len() >= 4 && args[1] == "aftermath" {
+        // `./check` calls this after the harness process <pid> died abnormally
+        let id = args[2].clone();
+        let pid: u32 = args[3].parse().unwrap_or(0);
+        std::process::exit(aftermath(&id, pid));
     }
     if args.len() >= 3 && args[1] == "parsetime" {
         // developer view: wall time of the public parse entry point on a file (no printing)
@@ -236,6 +327,22 @@ fn main() {
             std::process::exit(2)
         });
         let ctx = RunCtx::new(&id, tier, seed);
+        if v["key"].as_str().map(|k| k.contains(":abort:")).unwrap_or(false) {
+            let text = v["input"]["source"].as_str().unwrap_or("");
+            let stage = if v["key"].as_str().unwrap_or("").ends_with(":parse") { 1 } else { 2 };
+            match probe_in_child(stage, text) {
+                Some(sig) => {
+                    println!("VIOLATION property={id} replay={path}");
+                    println!("  key: {}", v["key"].as_str().unwrap_or(""));
+                    println!("  the process is killed by signal {sig} on this input");
+                    std::process::exit(1);
+                }
+                None => {
+                    println!("replay: property {id} holds on {path}");
+                    std::process::exit(0);
+                }
+            }
+        }
         let code = rayon::scope(|_| match guarded(|| replay_input(&id, &v)) {
             Ok(Ok(fails)) => {
                 let mut code = 0;
